@@ -8,10 +8,20 @@
 (* package-level cache, a "last verified" slot, a shared parser).          *)
 (*                                                                         *)
 (* Deployments (samlsp.New with its own URL and key):                      *)
-(*    A    url uA  key k1                                                  *)
-(*    B1   url uB  key k2      other URL and other key                     *)
+(*    A    url uA  key k1      uA has a non-root path                      *)
+(*    B1   url uB  key k2      other URL (another origin) and other key    *)
 (*    B2   url uA  key k2      same URL, other key (rolled-over key)       *)
 (*    B3   url uB  key k1      same key, other URL (= audience and issuer) *)
+(* and the SIBLINGS of A - key k1, same scheme and host, an Options.URL    *)
+(* that differs from uA in one respect (two applications behind one        *)
+(* reverse proxy that share a key pair):                                   *)
+(*    Sp   only the path         Sq   only the query                       *)
+(*    Ss   only a trailing slash Sc   only the letter case of the host     *)
+(* A history is over A and the B's (grp "base") or over A and its siblings *)
+(* (grp "sib": every presentation is to the minting deployment itself or   *)
+(* between A and a sibling).  Its first step is Build: samlsp.New derives  *)
+(* each deployment's audience and issuer from its URL (SessionTokenUrl:    *)
+(* DeriveAudience, named deviation AudienceIsUrlRoot).                     *)
 (* k1 and k2 are RSA or ECDSA keys (fam).  Every deployment named in       *)
 (* Minters mints, at clock 0, one session token (CreateSession) and one    *)
 (* request-tracking token (TrackRequest).  A step presents one of these    *)
@@ -29,34 +39,50 @@
 (*                                                                         *)
 (* The Properties section is written from the statement of C16 only.       *)
 (***************************************************************************)
-EXTENDS Integers, Sequences, FiniteSets, TLC, Json
+EXTENDS Integers, Sequences, FiniteSets, TLC, Json, SessionTokenUrl
 
 CONSTANTS MaxLen,            \* steps per history
           Minters,           \* deployments whose tokens are presented
           Fams,              \* key families of (k1, k2)
           DeepLen, DeepMinters, DeepFams,   \* longer histories over fewer tokens and families
+          SibFams,           \* key families under which the histories over A and its siblings are explored
           ProcessWideCache   \* named deviation, FALSE in the code: Decode remembers, in package-level
                              \* state keyed by the token string, every token that passed, and on a hit
                              \* re-checks the time window only.  TRUE is the design-level counterpart of
                              \* the code change this module exists to catch: TLC then reports
                              \* OnlyOwnFreshSessionTokens and HistoryIndependent violated.
+\* AudienceIsUrlRoot (SessionTokenUrl) is FALSE in the registered configurations _q and _t; the
+\* registered configuration _dev has it TRUE and TLC must then report OnlyOwnFreshSessionTokens
+\* violated (A's session token presented to the path sibling).
 
 Names == {"A", "B1", "B2", "B3"}
-Depl(n) == CASE n = "A"  -> [url |-> "uA", key |-> "k1"]
-             [] n = "B1" -> [url |-> "uB", key |-> "k2"]
-             [] n = "B2" -> [url |-> "uA", key |-> "k2"]
-             [] n = "B3" -> [url |-> "uB", key |-> "k1"]
+Sibs  == {"Sp", "Sq", "Ss", "Sc"}
+AllNames == Names \cup Sibs
+UA == Url("sp", "/wiki/", "")
+UB == OtherOrigin(UA)
+DeplDef(n) == CASE n = "A"  -> [url |-> UA, key |-> "k1"]
+             [] n = "B1" -> [url |-> UB, key |-> "k2"]
+             [] n = "B2" -> [url |-> UA, key |-> "k2"]
+             [] n = "B3" -> [url |-> UB, key |-> "k1"]
+             [] n = "Sp" -> [url |-> Sibling(UA, "sibPath"), key |-> "k1"]
+             [] n = "Sq" -> [url |-> Sibling(UA, "sibQuery"), key |-> "k1"]
+             [] n = "Ss" -> [url |-> Sibling(UA, "sibSlash"), key |-> "k1"]
+             [] n = "Sc" -> [url |-> Sibling(UA, "sibCase"), key |-> "k1"]
+DeplTab == [n \in AllNames |-> DeplDef(n)]      \* (a constant: evaluated once)
+Depl(n) == DeplTab[n]
 Fam(k1, k2) == [k1 |-> k1, k2 |-> k2]
 FamsQuick   == { Fam("RSA", "RSA"), Fam("ECDSA", "ECDSA"), Fam("RSA", "ECDSA") }
 FamsAll     == { Fam(a, b) : a \in {"RSA", "ECDSA"}, b \in {"RSA", "ECDSA"} }
 MintersTwo  == {"A", "B1"}
 FamsDeep    == { Fam("ECDSA", "ECDSA") }
 FamsDeepT   == { Fam("RSA", "ECDSA") }
-ASSUME DeepMinters \subseteq Minters /\ DeepFams \subseteq Fams /\ DeepLen >= MaxLen
+FamsSibQ    == { Fam("RSA", "ECDSA") }                         \* (only k1 matters to A and its siblings)
+FamsSibT    == { Fam("RSA", "ECDSA"), Fam("ECDSA", "ECDSA") }
+ASSUME DeepMinters \subseteq Minters /\ DeepFams \subseteq Fams /\ DeepLen >= MaxLen /\ SibFams \subseteq Fams
 KeyFam(f, k) == IF k = "k1" THEN f.k1 ELSE f.k2
 
 Kinds    == {"session", "tracking"}
-Tokens   == [by : Minters, kind : Kinds]           \* one token string per minting deployment and kind
+\* one token string per minting deployment and kind: [by, kind]
 SessLife == 3600                                   \* defaultSessionMaxAge
 TrkLife  == 90                                     \* saml.MaxIssueDelay
 LifeOf(kind) == IF kind = "session" THEN SessLife ELSE TrkLife
@@ -66,10 +92,14 @@ At(p)  == CASE p = "early" -> -30 [] p = "fresh" -> 30 [] p = "late" -> SessLife
 Ord(p) == CASE p = "early" -> 1 [] p = "fresh" -> 2 [] p = "late" -> 3
 
 VARIABLES fam,     \* key families of k1, k2
+          grp,     \* "base": A and the B's | "sib": A and its siblings
+          up,      \* the deployments have been built
+          ident,   \* per deployment: the audience = issuer samlsp.New gave its codecs
           clock,   \* current clock position
           cache,   \* tokens remembered by the process (always {} unless ProcessWideCache)
           hist     \* the steps so far, with the verdicts
-vars == <<fam, clock, cache, hist>>
+vars == <<fam, grp, up, ident, clock, cache, hist>>
+GroupNames == IF grp = "base" THEN Names ELSE {"A"} \cup Sibs
 
 ----------------------------------------------------------------------------
 (* one presentation, check by check *)
@@ -81,8 +111,8 @@ Checks(c, t, y, p) ==
      <<"AlgAllowed", KeyFam(fam, Depl(t.by).key) = KeyFam(fam, Depl(y).key)>>,
      <<"Signature",  Depl(t.by).key = Depl(y).key>>,
      <<"Times",      0 <= At(p) /\ At(p) < LifeOf(t.kind)>>,
-     <<"Audience",   Depl(t.by).url = Depl(y).url>>,
-     <<"Issuer",     Depl(t.by).url = Depl(y).url>>,
+     <<"Audience",   ident[t.by] = ident[y]>>,      \* what the minter's codec stamped = what y's codec requires
+     <<"Issuer",     ident[t.by] = ident[y]>>,
      <<"Marker",     t.kind = (IF c = "sess" THEN "session" ELSE "tracking")>> >>
 FirstFail(ch) == IF \A i \in DOMAIN ch : ch[i][2] THEN "none"
                  ELSE ch[CHOOSE i \in DOMAIN ch : ~ch[i][2] /\ \A j \in 1..(i - 1) : ch[j][2]][1]
@@ -95,12 +125,23 @@ SessDecode(t, y, p) ==
                                            ELSE Decode("sess", t, y, p))
     ELSE Decode("sess", t, y, p)
 
-Init == /\ fam \in Fams /\ clock = "early" /\ cache = {} /\ hist = <<>>
+Init == /\ fam \in Fams /\ grp \in {"base", "sib"} /\ (grp = "sib" => fam \in SibFams)
+        /\ up = FALSE /\ ident = [n \in GroupNames |-> NoUrl]
+        /\ clock = "early" /\ cache = {} /\ hist = <<>>
+
+\* samlsp.New for every deployment of the process (new.go:53-60, :84-92): Audience = Issuer =
+\* opts.URL.String() for the session codec and for the tracked-request codec
+Build == /\ ~up /\ up' = TRUE
+         /\ ident' = [n \in GroupNames |-> DeriveAudience(Depl(n).url)]
+         /\ UNCHANGED <<fam, grp, clock, cache, hist>>
 
 \* token t is sent to deployment y, in its session cookie (RequireAccount) and under
 \* saml_<sub> (GetTrackedRequests), at clock position p
-Deep == fam \in DeepFams /\ \A i \in DOMAIN hist : hist[i].by \in DeepMinters
+Deep == grp = "base" /\ fam \in DeepFams /\ \A i \in DOMAIN hist : hist[i].by \in DeepMinters
+GroupMinters == IF grp = "base" THEN Minters ELSE GroupNames
+InGroup(by, y) == grp = "sib" => ~(by # y /\ by # "A" /\ y # "A")
 Present(t, y, p) ==
+  /\ up /\ InGroup(t.by, y)
   /\ Len(hist) < (IF Deep /\ t.by \in DeepMinters THEN DeepLen ELSE MaxLen)
   /\ Ord(p) >= Ord(clock)
   /\ LET s == SessDecode(t, y, p)
@@ -109,8 +150,8 @@ Present(t, y, p) ==
                                  out |-> IF s.verdict = "accept" THEN "handler" ELSE "flow"])
         /\ cache' = IF ~ProcessWideCache THEN cache
                     ELSE IF s.verdict = "accept" THEN cache \cup {t} ELSE cache \ {t}
-  /\ clock' = p /\ UNCHANGED fam
-Next == \E t \in Tokens, y \in Names, p \in Positions : Present(t, y, p)
+  /\ clock' = p /\ UNCHANGED <<fam, grp, up, ident>>
+Next == Build \/ \E b \in GroupMinters, k \in Kinds, y \in GroupNames, p \in Positions : Present([by |-> b, kind |-> k], y, p)
 Spec == Init /\ [][Next]_vars
 
 (************************** Properties (statement) *************************)
@@ -118,6 +159,9 @@ Spec == Init /\ [][Next]_vars
 \*  and audience - no longer ago than the session lifetime; anything else, including tokens signed
 \*  by another key ..., request-tracking tokens minted by the same SP, expired or not-yet-valid
 \*  tokens, tokens for another audience or issuer ... yields no session"
+\* "another audience or issuer": the token was minted by the codec of a deployment whose Options.URL is
+\* not the receiving deployment's - another origin, or a sibling's URL that differs in the path, the
+\* query, a trailing slash or the letter case of the host - whatever either derives from its URL
 Why(h) == [otherKey   |-> Depl(h.by).key # Depl(h.to).key,
            otherAud   |-> Depl(h.by).url # Depl(h.to).url,
            otherIss   |-> Depl(h.by).url # Depl(h.to).url,
@@ -145,14 +189,22 @@ CacheUnused == ~ProcessWideCache => cache = {}
 \* (a presentation the statement requires to authenticate) are kept
 SessAccepts   == \E i \in DOMAIN hist : hist[i].sess.verdict = "accept"
 EitherAccepts == \E i \in DOMAIN hist : hist[i].sess.verdict = "accept" \/ hist[i].trk.verdict = "accept"
-Emitted == \/ Len(hist) = MaxLen /\ ~Deep /\ EitherAccepts
+\* (of the histories over A and its siblings only those in which a sibling takes part: the others are
+\* histories of the base group)
+WithSibling   == grp = "sib" => \E i \in DOMAIN hist : hist[i].by \in Sibs \/ hist[i].to \in Sibs
+Emitted == \/ Len(hist) = MaxLen /\ ~Deep /\ EitherAccepts /\ WithSibling
            \/ Len(hist) = DeepLen /\ Deep /\ SessAccepts
            \/ Len(hist) = MaxLen /\ Deep /\ EitherAccepts /\ ~SessAccepts
 Emit == Emitted =>
-          PrintT(<<"RHIST", ToJson([fam |-> fam,
+          PrintT(<<"RHIST", ToJson([fam |-> fam, grp |-> grp,
                                     steps |-> [i \in DOMAIN hist |->
                                                  [by |-> hist[i].by, kind |-> hist[i].kind, to |-> hist[i].to,
                                                   p |-> hist[i].p, at |-> hist[i].at, class |-> Class(hist[i]),
                                                   why |-> Why(hist[i]), sess |-> hist[i].sess, trk |-> hist[i].trk,
                                                   out |-> hist[i].out]]])>>)
+\* the table of deployments of a group, once per (fam, grp): Options.URL, key, and the audience = issuer
+\* step Build derived
+EmitDepls == (up /\ hist = <<>>) =>
+          PrintT(<<"RDEPL", ToJson([fam |-> fam, grp |-> grp,
+                                    depls |-> [n \in GroupNames |-> [url |-> Depl(n).url, key |-> Depl(n).key, aud |-> ident[n]]]])>>)
 =============================================================================
